@@ -2218,9 +2218,31 @@ XPathProcessorImpl::LocationPath()
 
         // Tell how long the entire step is.
         m_expression->updateOpCodeLength(newOpPos);
-    }
 
-    if(m_token.empty() == false)
+        // An absolute location path can be just the '/', so there
+        // is a relative location path only if the next token can
+        // start a step.  (After '/', a '*' or a name is always a
+        // node test, never an operator.)
+        if (m_token.empty() == false &&
+            (tokenIs(s_dotString) == true ||
+             tokenIs(s_dotDotString) == true ||
+             tokenIs(XalanUnicode::charAsterisk) == true ||
+             tokenIs(XalanUnicode::charCommercialAt) == true ||
+             tokenIs(XalanUnicode::charSolidus) == true ||
+             tokenIs(XalanUnicode::charLowLine) == true ||
+             XalanXMLChar::isLetter(m_token[0]) == true))
+        {
+            RelativeLocationPath();
+        }
+        else if (tokenIs(XalanUnicode::charLeftSquareBracket) == true)
+        {
+            // A predicate needs a step...
+            error(
+                XalanMessages::UnexpectedTokenFound_1Param,
+                m_token);
+        }
+    }
+    else
     {
         RelativeLocationPath();
     }
@@ -2313,7 +2335,7 @@ XPathProcessorImpl::Step()
         // Tell how long the entire step is.
         m_expression->updateOpCodeLength(opPos);
     }
-    else if (tokenIs(XalanUnicode::charRightParenthesis) == false)
+    else
     {
         error(
             XalanMessages::UnexpectedTokenFound_1Param,
